@@ -306,41 +306,55 @@ func runBlock(b block, ts []conc.Target, proc int) []vt.Ev {
 			}
 			s.emit(idBytes(id), 1, 0, fmt.Sprintf("p%d-B", proc))
 		}
-		// manager D: ids handed out ACROSS Delete. A deleted key's id stays unavailable: (1) a random draw that hits
-		// it (scripted through the verif hook keyset.VerifDraw) must be re-drawn, (2) a key that requires it must be
-		// refused. Every id the manager hands out is logged; "manager,id" must never repeat.
+		// manager D: the draw loop itself, scripted through the verif hook keyset.VerifDraw (it sees every real draw
+		// and may replace it). A draw may collide with (a) an id currently in the keyset, (b) the id of a deleted key,
+		// (c) several such ids in a row; every value the draw source returned during the call is logged ("draws")
+		// next to the id handed out: the id must be the LAST draw (a value of the uniform source, not something
+		// derived from a taken id) and every earlier draw must have been unavailable. A key that requires a
+		// deleted id must be refused. "manager,id" must never repeat, also across Delete.
 		md := keyset.NewManager()
-		emitD := func(id uint32) { s.emit(idBytes(id), 3, 0, fmt.Sprintf("p%d-D", proc)) }
-		p0, err := md.Add(tmpl)
-		must(err, "Manager.Add")
-		must(md.SetPrimary(p0), "Manager.SetPrimary")
-		emitD(p0)
-		tinkPrm := conc.Find(ts, "AESGCM128/TINK").Params.(*aesgcm.Parameters)
-		for c := 0; c < 8 && s.k+2 < per; c++ {
-			x, err := md.Add(tmpl)
-			must(err, "Manager.Add")
-			emitD(x)
-			must(md.Delete(x), "Manager.Delete")
-			if c%2 == 0 {
-				first := true
-				keyset.VerifDraw = func(real uint32) uint32 {
-					if first {
-						first = false
-						return x
-					}
-					return real
+		mgrD := fmt.Sprintf("p%d-D", proc)
+		var live, deleted []uint32
+		addD := func(script []uint32) uint32 {
+			var seen []string
+			keyset.VerifDraw = func(real uint32) uint32 {
+				v := real
+				if len(script) > 0 {
+					v, script = script[0], script[1:]
 				}
-				y, err := md.Add(tmpl)
-				keyset.VerifDraw = nil
-				must(err, "Manager.Add")
-				emitD(y)
-			} else {
+				seen = append(seen, vt.Hex(idBytes(v)))
+				return v
+			}
+			id, err := md.Add(tmpl)
+			keyset.VerifDraw = nil
+			must(err, "Manager.Add")
+			s.emit(idBytes(id), 3, 0, mgrD)
+			s.evs[len(s.evs)-1]["draws"] = seen
+			live = append(live, id)
+			return id
+		}
+		p0 := addD(nil)
+		must(md.SetPrimary(p0), "Manager.SetPrimary")
+		tinkPrm := conc.Find(ts, "AESGCM128/TINK").Params.(*aesgcm.Parameters)
+		for c := 0; c < 10 && s.k+3 < per; c++ {
+			x := addD(nil)
+			must(md.Delete(x), "Manager.Delete")
+			live = live[:len(live)-1]
+			deleted = append(deleted, x)
+			switch c % 4 {
+			case 0: // (b) the next draw is the deleted id
+				addD([]uint32{x})
+			case 1: // (a) the next draw is an id currently in the keyset
+				addD([]uint32{live[c%len(live)]})
+			case 2: // (c) several collisions in a row: live, deleted, live, deleted
+				addD([]uint32{p0, x, live[len(live)-1], deleted[0]})
+			default: // a key that REQUIRES the deleted id
 				kb, err := secretdata.NewBytesFromRand(16)
 				must(err, "key bytes")
 				k, err := aesgcm.NewKey(kb, x, tinkPrm)
 				must(err, "aesgcm.NewKey")
 				if id, err := md.AddKey(k); err == nil { // handed out: logged (a repeat if it is the deleted id)
-					emitD(id)
+					s.emit(idBytes(id), 3, 0, mgrD)
 				}
 			}
 		}
